@@ -50,6 +50,9 @@ func (C13) Generate(rng *rand.Rand, tier string, runIdx uint64) simkit.Plan {
 			s := Step{Op: "ixn.mut.upsert", Name: src, Svc: dst, Text: act(), ID: ""}
 			if simkit.Chance(rng, 20) {
 				s.Op = "ixn.mut.delete"
+			} else if simkit.Chance(rng, 15) {
+				// an upsert the store refuses (no action): it must leave no trace
+				s.Text = ""
 			}
 			p.Steps = append(p.Steps, s)
 		}
